@@ -116,3 +116,29 @@ Example C02_example_run :
   = POk (ANode 1 [ATok {| ttype := 2; tid := 0 |};
                   ANode 1 [ATok {| ttype := 2; tid := 1 |}; ANode 2 [ATok {| ttype := 3; tid := 2 |}]]]).
 Proof. vm_compute. reflexivity. Qed.
+
+(** From the BYTES of the grammar file to the generator's input.  [Front/SynAst.v] is the model of what gocc's front end hands
+    to the LR(1) generator: numbered productions (S' first), the symbol order, the terminal numbering, the look-ahead order
+    (terminals sorted by the bytes of their names), which alternatives carry an action, the number of the error terminal.
+    On every run of C02/C04/C05 its output on the bytes of each grammar file is compared with gocc's symbol table and
+    productions, so the generator model is compared with gocc from the file to the tables.  Whatever the file: every symbol
+    number is in range, and the look-ahead order is a permutation of the terminal numbers sorted by name. *)
+Require Gocc.Front.SynAst Gocc.Front.SynAstProofs.
+Theorem C02_front_end_generator_input_in_range : forall toks gi,
+  Gocc.Front.SynAst.gen_input_of_tokens toks = Some gi ->
+  Forall (Gocc.Front.SynAstProofs.prod_ok (Gocc.Front.SynAst.gi_nn gi) (Gocc.Front.SynAst.gi_ntm gi)) (Gocc.Front.SynAst.gi_g gi).
+Proof. exact Gocc.Front.SynAstProofs.gen_input_bounds_shipped. Qed.
+Print Assumptions C02_front_end_generator_input_in_range.
+
+Theorem C02_front_end_lookahead_order : forall ft sdt toks gi,
+  Gocc.Front.SynAst.gen_input_of_tokens_ft ft sdt toks = Some gi ->
+  Permutation.Permutation (Gocc.Front.SynAst.gi_la gi) (seq 0 (Gocc.Front.SynAst.gi_ntm gi)) /\
+  Sorted.StronglySorted (fun i j => Gocc.Front.SynAst.name_leb
+      (Gocc.Front.SynAstProofs.name_at (Gocc.Front.SynAst.gi_tnames gi) i)
+      (Gocc.Front.SynAstProofs.name_at (Gocc.Front.SynAst.gi_tnames gi) j) = true) (Gocc.Front.SynAst.gi_la gi).
+Proof.
+  intros ft sdt toks gi H. split.
+  - exact (Gocc.Front.SynAstProofs.gi_la_perm ft sdt toks gi H).
+  - exact (Gocc.Front.SynAstProofs.gi_la_sorted ft sdt toks gi H).
+Qed.
+Print Assumptions C02_front_end_lookahead_order.
